@@ -396,6 +396,49 @@ def _normal_form_by_execution(ctx, ck, rules, map_only: bool = False) -> bool:
     return True
 
 
+def abstract_driver(ctx, rules):
+    """The reduction driver set up for abstract execution (sa/axinterp.py): an interpreter in which the registry consulted by
+    AlgebraicReductionRule.apply holds an instance of every concrete binary rule, in registration (import) order.  Returns
+    (interpreter, call) where call(chain) evaluates apply on a list of abstract operators, or None."""
+    from ..axinterp import Env, Func, Interp, Obj, Raised, Undecided, UNK
+
+    world, table = ctx.world, ctx.table
+    alg = table.get(f'{RULES}.AlgebraicReductionRule')
+    reg_cls = table.find(f'{RULES}.RuleRegistry')
+    base = table.get(f'{CORE}.AbstractLinearOperator')
+    apr = table.resolve(alg, 'apply')
+    if reg_cls is None or apr is None:
+        return None
+    fn = apr.node
+    binary = [r for r in rules if table.is_subclass(r, f'{RULES}.AbstractBinaryRule') and not r.name.startswith('Abstract')]
+    rank = import_order(world)
+    binary.sort(key=lambda r: (rank.get(r.module.name, 10**6), r.node.lineno))
+    rules_mod = module_of(fn)
+    reg_names = [n for n, d in rules_mod.defs.items() if isinstance(d, (ast.Assign, ast.AnnAssign)) and d.value is not None and 'RuleRegistry' in ast.unparse(d.value)]
+    out_fn = base.own.get('out_structure')
+    it = Interp(world, table, budget=200_000)
+    it.symbolic = True
+    it.constructible = {k.qual for k in table.operators()} | {k.qual for k in table.classes.values() if k.module.name == rules_mod.name or table.is_subclass(k, f'{RULES}.AbstractRule')}
+    if isinstance(out_fn, ast.FunctionDef):
+        it.summaries[id(out_fn)] = lambda args, kwargs: args[0].attrs.get('__out__', UNK)
+    try:
+        registry = it.construct(reg_cls)
+        for r in binary:
+            has_init = any(isinstance(k.own.get('__init__'), ast.FunctionDef) for k in r.mro)
+            it.call_method(registry, 'register', it.construct(r) if has_init else Obj(r, {}))
+    except (Undecided, Raised):
+        return None
+    for nm in reg_names:
+        it.globals_override[(rules_mod.name, nm)] = registry
+
+    def call(chain):
+        it.steps = 0
+        del it.degraded[:]
+        return it.call_function(Func(fn, Env(rules_mod), Obj(alg, {}), apr.found_on), [list(chain)], {})
+
+    return it, call, fn
+
+
 def run(ctx, ck) -> None:
     world, table = ctx.world, ctx.table
     rules = table.rules()
